@@ -12,7 +12,6 @@ CONSTANTS
 INVARIANT NonNegative
 INVARIANT BracketBounded
 INVARIANT NodeExact
-INVARIANT BilinearOrderIrrelevant
 INVARIANT NeverExtrapolated
 INVARIANT ZeroBelowBothMinima
 INVARIANT FitsInv
